@@ -941,7 +941,8 @@ impl Mp4TrackWriter {
         let max_sample_size = self.max_sample_size();
         if let Some(ref mut mp4a) = self.trak.mdia.minf.stbl.stsd.mp4a {
             if let Some(ref mut esds) = mp4a.esds {
-                esds.es_desc.dec_config.buffer_size_db = max_sample_size;
+                // bufferSizeDB is a 24-bit field
+                esds.es_desc.dec_config.buffer_size_db = cmp::min(max_sample_size, 0x00FF_FFFF);
             }
             // TODO
             // mp4a.esds.es_desc.dec_config.max_bitrate
